@@ -306,7 +306,8 @@ def fingerprints(prop):
 
 def harness_env(seed, tier):
     env = dict(os.environ)
-    env.update({"VERIF_SEED": str(seed), "VERIF_TIER": tier, "GOMEMLIMIT": "6GiB", "VERIF_REPO": REPO})
+    env.update({"VERIF_SEED": str(seed), "VERIF_TIER": tier, "GOMEMLIMIT": "6GiB", "VERIF_REPO": REPO,
+                "VERIF_HANGSTACKS": os.path.join(BUILD, "hangs")})
     return env
 
 
@@ -335,7 +336,7 @@ def run_impl(prop, hbin, ops, seed, tier, crashes=None):
         lines = [l for l in out.splitlines() if l.strip()]
         data = [l for l in lines if not l.startswith("#")]
         if rc == 0 and len(data) == len(todo):
-            return out_lines + lines
+            return retry_hangs(prop, hbin, env, tier, out_lines + lines)
         if ncrash >= 4 and crashes and rc not in (0, 124):
             return out_lines    # crashes everywhere: four concrete crashing cases are enough, the rest is not run
         if rc in (0, 124) or crashes is None or len(data) >= len(todo):
@@ -364,6 +365,37 @@ def run_impl(prop, hbin, ops, seed, tier, crashes=None):
         kept = [l for l in lines if not l.startswith("#")][:lo]
         out_lines += kept
         pos += hi
+
+
+def retry_hangs(prop, hbin, env, tier, lines):
+    """A scenario that did not finish within its real-time deadline (`HANG …`) is re-run alone, twice at most:
+    on a loaded machine a scenario can simply be slow. If it hangs again the hang stands (and is judged by the
+    driver); if not, the re-run's history replaces it and the event is counted in the evidence."""
+    if prop.group_by_reset:
+        return lines
+    out, n_retry, n_stand = [], 0, 0
+    for l in lines:
+        if l.startswith("#") or " | HANG" not in l or n_retry >= 6:
+            out.append(l)
+            continue
+        op = l.split(" | ", 1)[0]
+        n_retry += 1
+        repl = None
+        for _ in range(2):
+            rc, o, e = sh([hbin, "run"], env=env, stdin=op + "\n", timeout=prop.run_timeout[tier])
+            d = [x for x in o.splitlines() if x.strip() and not x.startswith("#")]
+            if rc == 0 and len(d) == 1 and " | HANG" not in d[0]:
+                repl = d[0]
+                break
+        if repl is None:
+            n_stand += 1
+            out.append(l)
+        else:
+            out.append(repl)
+    if n_retry:
+        out.append("#stat hang.rerun-alone %d" % n_retry)
+        out.append("#stat hang.reproduced %d" % n_stand)
+    return out
 
 
 def run_model(prop, dbin, lines, tier):
